@@ -4,7 +4,7 @@
    79488b4 (IS NOT TRUE), 596613e (info NOT IN) applied.  `pre4`, `prequote`, `legacy` = the code before
    the last four / five / all of them: statements about those are the record of the repaired defects. *)
 From Coq Require Import ZArith List Bool String Permutation Sorted.
-From PAFC10 Require Import Model Proofs Proofs2 Proofs3 Proofs4 Proofs5 Proofs6 Witness.
+From PAFC10 Require Import Model Proofs Proofs2 Proofs3 Proofs4 Proofs5 Proofs6 Proofs7 Proofs8 Proofs9 Witness Witness2.
 Import ListNotations.
 
 (* ===== selection ===== *)
@@ -78,6 +78,113 @@ Theorem C10_order : forall keys l,
   (keys <> [] -> Sorted (fun a b => lex_le keys a b = true) (ordered keys l)).
 Proof. exact ordered_spec. Qed.
 
+(* ===== ordering with NULL keys (SQLite: NULL is smaller than every value) ===== *)
+
+(* every earlier fit of the ordered result is <= every later one in the lexicographic key order
+   (lex_le: first key first, a reversed key compared the other way round, NULL smallest) *)
+Theorem C10_order_strong : forall keys l,
+  keys <> [] -> StronglySorted (fun a b => lex_le keys a b = true) (ordered keys l).
+Proof. exact ordered_strongly. Qed.
+
+(* first key ascending: no fit with a NULL key after a fit with a value (NULLs first);
+   first key reversed: no fit with a NULL key before a fit with a value (NULLs last) *)
+Theorem C10_order_nulls : forall k rev r l l1 a l2 b l3,
+  ordered ((k, rev) :: r) l = l1 ++ a :: l2 ++ b :: l3 ->
+  (rev = false -> key_null k b = true -> key_null k a = true) /\
+  (rev = true -> key_null k a = true -> key_null k b = true).
+Proof. exact order_nulls. Qed.
+
+(* the code (ORDER BY) guarantees nothing about fits that tie on every key; when the keys separate the
+   selected fits, ANY permutation of the selection that is in key order is the model's result *)
+Theorem C10_order_unique : forall keys l l',
+  keys <> [] -> separates keys l -> NoDup l -> Permutation l l' ->
+  Sorted (fun a b => lex_le keys a b = true) l' -> l' = ordered keys l.
+Proof. exact ordered_unique. Qed.
+
+(* an order_by on the id (a primary key) among the keys separates the fits *)
+Theorem C10_order_id_total : forall keys l,
+  keys_total keys = true -> NoDup (map fid l) -> separates keys l.
+Proof. exact id_key_separates. Qed.
+
+(* ===== parent / child relation, best fits ===== *)
+
+(* ChildQuery: exactly the fits of the table whose parent is in the selected set *)
+Theorem C10_children_exact : forall P db f,
+  In f (children_of P db) <-> In f db /\ exists par, In par P /\ fparent f = Some (fid par).
+Proof. exact children_exact. Qed.
+
+(* BestFitQuery on the children C: exactly the children with a likelihood that no sibling exceeds *)
+Theorem C10_best_exact : forall C c,
+  In c (best_of C) <->
+  In c C /\ exists m, fmll c = Some m /\
+    forall c' m', In c' C -> fparent c' = fparent c -> fmll c' = Some m' -> (m' <= m)%Z.
+Proof. exact best_exact. Qed.
+
+(* every grid search with a child whose likelihood is not NULL gets a best fit *)
+Theorem C10_best_exists : forall C c m,
+  In c C -> fmll c = Some m -> exists b, In b (best_of C) /\ fparent b = fparent c.
+Proof. exact best_exists. Qed.
+
+(* one best fit per grid search when no two siblings tie on a defined likelihood *)
+Theorem C10_best_unique_partial : forall C a b,
+  no_ties C -> In a (best_of C) -> In b (best_of C) -> fparent a = fparent b -> a = b.
+Proof. exact best_unique. Qed.
+
+(* FULL STATEMENT (at most one best fit per grid search) -- REFUTED: every child attaining the maximum is returned *)
+Theorem C10_best_unique_refuted :
+  exists C a b, In a (best_of C) /\ In b (best_of C) /\ fparent a = fparent b /\ a <> b.
+Proof. exact best_unique_refuted. Qed.
+
+(* every selection (ordinary, children, best fits, and-ed with queries) returns each fit at most once *)
+Theorem C10_grid_each_once : forall g db, NoDup (map fid db) -> NoDup (map fid (gsel g db)).
+Proof. exact gsel_nodup. Qed.
+
+(* end to end: any sequence of query / order_by / grid_searches / children / best_fits followed by [a:b] slices
+   returns the Python slices of the ordered list meaning (spec_sel: query = filter by the predicate evaluated on
+   the stored objects, grid_searches = filter is_grid_search, children = children_of, best_fits = best_of), under
+   the computable guard (LIKE-plain strings, negated junctions re-merge, the and-merges pass junction_ok) and
+   gsql_ok (no BestFitQuery pasted into a sub-select; vacuous with bfix = the proposed repair) *)
+Theorem C10_grid_pipeline_partial : forall bfix top db ops st' slices,
+  NoDup (map fid db) -> forallb wf_fit db = true ->
+  existsb has_shadow (gop_preds ops) = false ->
+  fold_gops current bfix db (g_init top) ops = Ok st' -> gguard bfix db (g_init top) ops = true ->
+  gsql_ok bfix (g_pred st') = true ->
+  run_gops current bfix top db (ops ++ gslice_ops slices) =
+  Ok (spec_slices (spec_top top ops) (ordered (spec_keys [] ops) (spec_sel db db ops)) slices, spec_keys [] ops).
+Proof. exact grid_pipeline. Qed.
+
+(* FULL STATEMENT without gsql_ok -- REFUTED for the code as it is (best_fits() then query raises);
+   exact with the proposed repair *)
+Theorem C10_grid_compose_refuted :
+  exists db ops, gguard false db (g_init true) ops = true /\
+    run_gops current false true db ops = Err ESql /\
+    run_gops current true true db ops =
+      Ok (ordered (spec_keys [] ops) (spec_sel db db ops), spec_keys [] ops).
+Proof. exact grid_compose_refuted. Qed.
+
+(* the proposed repair of slicing (run_gops_s, proposed_fixes/C10-slice-positional.diff): a sliced aggregator that is
+   queried / ordered / navigated further is first replaced by the ids of its fits; re-selected by id and ordered by the
+   same keys (the id among them) these are exactly the fits of the slice in the same order, so the later operation
+   acts on the slice as on a Python list *)
+Theorem C10_slicefix_freeze_exact : forall db st,
+  NoDup (map fid db) -> keys_total (g_keys st) = true ->
+  g_fits current db (freeze current db st) = g_fits current db st.
+Proof. exact freeze_exact. Qed.
+
+(* ... and a slice with a step > 1 or a negative step returns the Python list slice of the current fits (same
+   repair: IdsQuery of self.fits[item], every order key flipped for a negative step) *)
+Theorem C10_slicefix_step_partial : forall db st start stop stp st',
+  NoDup (map fid db) -> keys_total (g_keys st) = true -> (1 < stp)%Z ->
+  gop_step_s current false db st (GSlice start stop (Some stp)) = Ok st' ->
+  g_fits current db st' = py_slice_step (g_fits current db st) start stop (Some stp).
+Proof. exact stepped_pos_exact. Qed.
+
+Theorem C10_slicefix_negative_step_partial : forall db st start stop stp st',
+  NoDup (map fid db) -> keys_total (g_keys st) = true -> (stp < 0)%Z ->
+  gop_step_s current false db st (GSlice start stop (Some stp)) = Ok st' ->
+  g_fits current db st' = py_slice_step (g_fits current db st) start stop (Some stp).
+Proof. exact stepped_neg_exact. Qed.
+
 (* every chain of [a:b] slices, with or without child fits, equals Python list slicing *)
 Theorem C10_slice_exact : forall top_only L slices,
   run_slices current top_only L slices = spec_slices top_only L slices.
@@ -144,3 +251,9 @@ Print Assumptions C10_pipeline_partial.
 Print Assumptions C10_ops_canonical_partial.
 Print Assumptions C10_invert_partial.
 Print Assumptions C10_errors_characterised.
+Print Assumptions C10_order_unique.
+Print Assumptions C10_order_nulls.
+Print Assumptions C10_grid_pipeline_partial.
+Print Assumptions C10_best_exists.
+Print Assumptions C10_slicefix_freeze_exact.
+Print Assumptions C10_slicefix_negative_step_partial.
